@@ -7,6 +7,7 @@ import BV.C13.LemmasScript
 import BV.C13.LemmasScript2
 import BV.C13.LemmasWitness
 import BV.C13.LemmasHeight
+import BV.C13.LemmasCost
 import BV.Generated.C13
 namespace BV.C13
 open Spec
@@ -163,6 +164,20 @@ theorem sigOpCost_def (t : Tx) (utxos : List Utxo) (p w : Nat)
   simp only [Option.map_some]
   congr 1; omega
 
+/-- `GetSigOpCost` (BIP16 and segwit active, non-coinbase, every spent output in the view) =
+    the protocol's `GetTransactionSigOpCost` = 4·(legacy + P2SH) + witness, on the Spec counters. -/
+theorem sigOpCost_eq_spec (t : Tx) (pks : List Bytes) (hlen : pks.length = t.ins.length)
+    (hok : Lemmas.SizesOk (t.ins.zip pks)) (houts : ∀ o ∈ t.outs, o.pk.length < 2^31) :
+    getSigOpCost t false (pks.map some) true true =
+      some (txSigOpCost ((t.ins.zip pks).map (fun x => (x.1.script, x.1.witness, x.2))) (t.outs.map (·.pk))) :=
+  Lemmas.sigOpCost_eq_spec t pks hlen hok houts
+
+/-- a coinbase pays only for its legacy sigops: 4 · legacy -/
+theorem sigOpCost_coinbase (t : Tx) (utxos : List Utxo) (b16 sw : Bool) :
+    getSigOpCost t true utxos b16 sw = some (4 * countSigOps t) := by
+  unfold getSigOpCost countP2SHSigOps
+  cases b16 <;> simp [WITNESS_SCALE_FACTOR, Nat.mul_comm]
+
 /-! ### coinbase height (BIP34) -/
 
 /-- the script builder's `AddInt64` is the BIP34 encoder `CScript() << height` -/
@@ -232,6 +247,18 @@ theorem sequenceLock_eq_bip68 (csvActive : Bool) (version : Nat) (nodeHeight : I
     rfl
   · have h' : (decide (version ≥ 2) && csvActive) = false := by simpa using h
     simp [h']
+
+/-- the time-based lock of an input is measured from the median time past of the block BEFORE the
+    block that contains the spent output (height − 1, floored at 0; mempool inputs count as the
+    next block, so they measure from the current tip). -/
+theorem sequenceLock_prev_block_mtp (times : List Int) (seq : Nat) (h : Int) (hh : h ≠ 0x7fffffff) :
+    (lockInputOf times seq (some h)).prevMtp = mtpAt times (if h - 1 < 0 then 0 else h - 1).toNat ∧
+    (lockInputOf times seq (some 0x7fffffff)).prevMtp = mtpAt times (times.length - 1) := by
+  constructor
+  · simp [lockInputOf, hh]
+  · simp only [lockInputOf, if_true]
+    congr 1
+    omega
 
 /-- version < 2, CSV inactive or a coinbase: no constraint (−1, −1) -/
 theorem sequenceLock_disabled (csvActive : Bool) (version : Nat) (cb : Bool) (nodeHeight : Int)
